@@ -12,6 +12,7 @@ mod peph;
 mod p12;
 mod p06;
 mod p19;
+mod p07;
 // MODULES (keep this list and the two dispatch tables below in sync)
 
 use std::io::{self, BufRead, Write, BufWriter};
@@ -22,6 +23,7 @@ pub fn dispatch_exec(op: &str, a: &[i64]) -> Option<String> {
   if let Some(r) = p12::exec(op, a) { return r; }
   if let Some(r) = p06::exec(op, a) { return r; }
   if let Some(r) = p19::exec(op, a) { return r; }
+  if let Some(r) = p07::exec(op, a) { return r; }
   // DISPATCH-EXEC
   Some("bad-op".to_string())
 }
@@ -33,6 +35,7 @@ pub fn dispatch_enum(name: &str, args: &[String], w: &mut dyn Write) -> bool {
   if p12::run_enum(name, args, w) { return true; }
   if p06::run_enum(name, args, w) { return true; }
   if p19::run_enum(name, args, w) { return true; }
+  if p07::run_enum(name, args, w) { return true; }
   // DISPATCH-ENUM
   false
 }
